@@ -2,6 +2,7 @@ package types
 
 import (
 	"strconv"
+	"sync/atomic"
 
 	"github.com/goghcrow/yae/util"
 )
@@ -9,10 +10,10 @@ import (
 // TyVar 新建 Type Variable
 // 📢 每次调用都生成全局唯一类型变量
 var TyVar = func() func(name string) *Type {
-	n := 0
+	var n int64 // 多个 goroutine 同时编译时并发自增
 	return func(name string) *Type {
-		n++
-		t := TypeVariable{Type{KTyVar}, name + strconv.Itoa(n)}
+		i := atomic.AddInt64(&n, 1)
+		t := TypeVariable{Type{KTyVar}, name + strconv.FormatInt(i, 10)}
 		return &t.Type
 	}
 }()
